@@ -13,9 +13,9 @@ Definition inv (B : Z) (c : ct) : Prop := 0 <= ld (cm c) /\ 0 <= lb (cm c) /\ ef
 Definition good (B : Z) (c : ct) : Prop := inv B c /\ 0 <= csize c /\ csize c * B < two62.
 
 Definition smallm (m : meta) : Prop := 0 <= ld m < two62 /\ 0 <= lb m < two62.
-Definition small (x : Z) : Prop := 0 <= x < two63.
+Definition small (x : Z) : Prop := 0 <= x < two64.       (* any usize *)
 
-(* caller-supplied scalars are usize values below 2^63 (plaintext metadata below 2^62) *)
+(* caller-supplied scalars are arbitrary usize values; plaintext metadata stays below 2^62 (its sums are unchecked) *)
 Definition wf_ptz (p : ptz) : Prop := smallm (pm p) /\ 0 <= pmaxk p < two62 /\ 0 <= pb2k p.
 Definition wf_op (B : Z) (o : op) : Prop :=
   match o with
@@ -23,7 +23,8 @@ Definition wf_op (B : Z) (o : op) : Prop :=
   | OEncrypt pt k => smallm pt /\ small k
   | OPtZnxInto p | OPtZnxAssign p | OMulPtZnxInto p | OMulPtZnxAssign p | OMulAccPtZnx p => wf_ptz p
   | OPtRnxInto m | OPtRnxAssign m | OMulPtRnxInto m | OMulPtRnxAssign m
-  | OMulAccPtRnx m | OSetMeta m | ODecrypt m => smallm m
+  | OMulAccPtRnx m | ODecrypt m => smallm m
+  | OSetMeta m => small (ld m) /\ small (lb m)
   | OMulCstZnxInto m _ | OMulCstZnxAssign m _ | OCstRnxInto m _ | OCstRnxAssign m _ | OMulCstRnxInto m _ | OMulCstRnxAssign m _ | OMulAccCstZnx m _ | OMulAccCstRnx m _ => smallm m
   | OCstZnxInto l k _ | OCstZnxAssign l k _ => 0 <= l < two62 /\ small k
   | OMulPow2Into b | OMulPow2Assign b | ODivPow2Into b | ODivPow2Assign b | ORescaleInto b | ORescaleAssign b => small b
@@ -78,20 +79,25 @@ Definition spec_step (B : Z) (o : op) (d a b : ct) : sres :=
   | OPtRnxInto prec => s_f64 (ld prec) (s_unary B d a (fun m => s_align B m (ptz_alloc B prec) sz))
   | OPtRnxAssign prec => s_f64 (ld prec) (s_align B dm (ptz_alloc B prec) sz)
   | OCstZnxInto l k none =>
-      s_f64 l (s_unary B d a (fun m => if none then ok m else if lb m + l <? Z.max k l then SErr EAlign else ok m))
+      s_f64 l (s_unary B d a (fun m => if none then ok m else if lb m + l <? Z.max k l then SErr EAlign
+                                       else if sz <? cdiv k B then SErr EAlign else ok m))
   | OCstZnxAssign l k none =>
-      s_f64 l (if none then ok dm else if lb dm + l <? Z.max k l then SErr EAlign else ok dm)
+      s_f64 l (if none then ok dm else if lb dm + l <? Z.max k l then SErr EAlign
+               else if sz <? cdiv k B then SErr EAlign else ok dm)
   | OCstRnxInto prec none =>
-      if none then s_unary B d a ok else s_unary B d a (fun m => s_f64 (ld prec) (ok m))
-  | OCstRnxAssign prec none => if none then ok dm else s_f64 (ld prec) (ok dm)
-  | ONegInto | OConjInto | OMulPow2Into _ => s_unary B d a ok
+      if none then s_unary B d a ok
+      else s_unary B d a (fun m => s_f64 (ld prec) (if sz <? cdiv (lb m + ld prec) B then SErr EAlign else ok m))
+  | OCstRnxAssign prec none =>
+      if none then ok dm else s_f64 (ld prec) (if sz <? cdiv (lb dm + ld prec) B then SErr EAlign else ok dm)
+  | ONegInto | OConjInto => s_unary B d a ok
+  | OMulPow2Into bits => s_unary B d a (fun m => if two64 <=? bits + offu B d a then SErr EOther else ok m)
   | ONegAssign | OConjAssign | OMulPow2Assign _ => ok dm
   | OMulInto => s_mul_ct (maxk B d) (cm a) (cm b) ok
   | OMulAssign => s_mul_ct (maxk B d) dm (cm a) ok
   | OSquareInto => s_mul_ct (maxk B d) (cm a) (cm a) ok
   | OSquareAssign => s_mul_ct (maxk B d) dm dm ok
-  | OMulPtZnxInto p => s_mul_pt (maxk B d) (cm a) (ld (pm p)) ok
-  | OMulPtZnxAssign p => s_mul_pt (maxk B d) dm (ld (pm p)) ok
+  | OMulPtZnxInto p => if negb (B =? pb2k p) then SErr EBase2k else s_mul_pt (maxk B d) (cm a) (ld (pm p)) ok
+  | OMulPtZnxAssign p => if negb (B =? pb2k p) then SErr EBase2k else s_mul_pt (maxk B d) dm (ld (pm p)) ok
   | OMulPtRnxInto prec | OMulCstZnxInto prec _ => s_f64 (ld prec) (s_mul_pt (maxk B d) (cm a) (ld prec) ok)
   | OMulPtRnxAssign prec | OMulCstZnxAssign prec _ => s_f64 (ld prec) (s_mul_pt (maxk B d) dm (ld prec) ok)
   | OMulCstRnxInto prec none =>
@@ -99,7 +105,7 @@ Definition spec_step (B : Z) (o : op) (d a b : ct) : sres :=
   | OMulCstRnxAssign prec none =>
       if none then s_mul_pt (maxk B d) dm (ld prec) ok else s_f64 (ld prec) (s_mul_pt (maxk B d) dm (ld prec) ok)
   | OMulAccCt => s_mul_ct (maxk B d) (cm a) (cm b) (s_acc d)
-  | OMulAccPtZnx p => s_mul_pt (maxk B d) (cm a) (ld (pm p)) (s_acc d)
+  | OMulAccPtZnx p => if negb (B =? pb2k p) then SErr EBase2k else s_mul_pt (maxk B d) (cm a) (ld (pm p)) (s_acc d)
   | OMulAccPtRnx prec => s_f64 (ld prec) (s_mul_pt (maxk B d) (cm a) (ld prec) (s_acc d))
   | OMulAccCstZnx prec none => s_f64 (ld prec) (if none then ok dm else s_mul_pt (maxk B d) (cm a) (ld prec) (s_acc d))
   | OMulAccCstRnx prec none => if none then ok dm else s_f64 (ld prec) (s_mul_pt (maxk B d) (cm a) (ld prec) (s_acc d))
@@ -109,12 +115,16 @@ Definition spec_step (B : Z) (o : op) (d a b : ct) : sres :=
   | ODivPow2Assign bits => if lb dm <? bits then SErr ECapacity else ok (Meta (ld dm) (lb dm - bits))
   | ORotateInto key => if negb key then SErr EMissingKey else s_unary B d a ok
   | ORotateAssign key => if negb key then SErr EMissingKey else ok dm
-  | ORescaleInto k => if lb (cm a) <? k then SErr ECapacity else ok (Meta (ld (cm a)) (lb (cm a) - k))
+  | ORescaleInto k =>
+      if lb (cm a) <? k then SErr ECapacity else
+      let l := lb (cm a) - k in
+      let off := Z.max 0 (ld (cm a) + l - maxk B d) in
+      if l <? off then SErr ECapacity else ok (Meta (ld (cm a)) (l - off))
   | ORescaleAssign k => if lb dm <? k then SErr ECapacity else ok (Meta (ld dm) (lb dm - k))
   | OCompact => SOk dm (cdiv (eff dm) B)
   | ORealloc s => if s <? cdiv (eff dm) B then SErr EShrink else SOk dm s
   | OCompactCopy => SOk (cm a) (cdiv (eff (cm a)) B)
-  | OSetMeta m => if maxk B d <? eff m then SErr EShrink else ok m
+  | OSetMeta m => if (two64 <=? eff m) || (maxk B d <? eff m) then SErr EShrink else ok m
   | ODecrypt pt => if lb dm <? lb pt then SErr EAlign else ok dm
   end.
 
@@ -140,21 +150,8 @@ Definition admissible (B : Z) (o : op) (d a : ct) : Prop :=
   | _ => True
   end.
 
-(* K1: ckks_rescale_into ignores the destination's capacity *)
-Definition k1_rescale_into_small_dst (B : Z) (o : op) (d a : ct) : Prop :=
-  match o with ORescaleInto k => maxk B d < eff (cm a) - k | _ => False end.
-
-(* K2: adding a constant whose digits reach below the destination's last limb panics (limb-index assertion) *)
-Definition k2_const_digits_beyond_dst (B : Z) (o : op) (d a : ct) : Prop :=
-  match o with
-  | OCstZnxInto _ k none | OCstZnxAssign _ k none => none = false /\ csize d < cdiv k B
-  | OCstRnxInto prec none => none = false /\ csize d < cdiv (lb (cm a) - offu B d a + ld prec) B
-  | OCstRnxAssign prec none => none = false /\ csize d < cdiv (lb (cm d) + ld prec) B
-  | _ => False
-  end.
-
-(* K3: products assert (in poulpy-core) that their ciphertext operands are stored compactly;
-   K6: and that a vector plaintext has the ciphertext's base2k (no PlaintextBase2KMismatch on this path) *)
+(* the one remaining panic class: products assert (in poulpy-core) that their ciphertext operands are stored
+   compactly, ceil(effective_k / base2k) = limbs; the CKKS layer does not check it *)
 Definition k3_product_of_noncompact (B : Z) (o : op) (d a b : ct) : Prop :=
   match o with
   | OMulInto | OMulAccCt => ~ (compact_ct B a /\ compact_ct B b)
@@ -163,24 +160,10 @@ Definition k3_product_of_noncompact (B : Z) (o : op) (d a b : ct) : Prop :=
   | OSquareAssign | OMulPtZnxAssign _ | OMulPtRnxAssign _ => ~ compact_ct B d
   | _ => False
   end.
-Definition k6_product_base2k_mismatch (B : Z) (o : op) : Prop :=
-  match o with
-  | OMulPtZnxInto p | OMulPtZnxAssign p | OMulAccPtZnx p => pb2k p <> B
-  | _ => False
-  end.
-Definition known_panic (B : Z) (o : op) (d a b : ct) : Prop :=
-  k2_const_digits_beyond_dst B o d a \/ k3_product_of_noncompact B o d a b \/ k6_product_base2k_mismatch B o.
+Definition known_panic (B : Z) (o : op) (d a b : ct) : Prop := k3_product_of_noncompact B o d a b.
 
 (* ---------------- programs ---------------- *)
 Definition is_done (o : outcome) : Prop := match o with Done _ _ _ => True | _ => False end.
 
-(* every call of the run succeeds (as with `?` propagation), is well formed and avoids K1 *)
-Fixpoint clean_run (chk : bool) (B : Z) (rs : regs) (p : list step) : Prop :=
-  match p with
-  | [] => True
-  | s :: tl =>
-      wf_op B (sop s) /\
-      ~ k1_rescale_into_small_dst B (sop s) (rget rs (sd s)) (rget rs (sa s)) /\
-      is_done (fst (exec_step chk B rs s)) /\
-      clean_run chk B (snd (exec_step chk B rs s)) tl
-  end.
+(* a program is well formed when each of its operations is *)
+Definition wf_prog (B : Z) (p : list step) : Prop := Forall (fun s => wf_op B (sop s)) p.
